@@ -722,7 +722,7 @@ def run(ctx):
                 crashes.append((pid, src, feats, stream, it, r, oc))
             elif oc == "success" or "SyntaxError" not in r["erg_err"]:
                 nontrivial += 1
-    extra.update({"programs": {"W": nW, "M": nM, "T": len([p for p in progs if p[3] == "T"]), "L": nL,
+    extra.update({"programs_by_stream": {"W": nW, "M": nM, "T": len([p for p in progs if p[3] == "T"]), "L": nL,
                                "corpus": len([p for p in progs if p[3] == "C"])},
                   "outcome_classes": classes, "outcome_classes_by_stream": stream_classes,
                   "tree_mutation_operators": mut_ops, "token_mutation_operators": tok_ops})
